@@ -844,7 +844,7 @@ func (x *Exec) evComposite(st *State, e *ast.CompositeLit, _ bool) Val {
 		return x.name("lit", Val{T: fmt.Sprintf("(mk_%s %s)", srt, strings.Join(vals, " ")), Sort: srt, GoT: t})
 	case *types.Slice:
 		inf := x.vc.info(srt)
-		arr := fmt.Sprintf("((as const (Array %s %s)) %s)", x.vc.intSort(), inf.Elem, x.vc.zero(inf.Elem))
+		arr := x.vc.constArr(x.vc.intSort(), inf.Elem)
 		n := int64(0)
 		for _, el := range e.Elts {
 			if kv, ok := el.(*ast.KeyValueExpr); ok {
@@ -858,7 +858,7 @@ func (x *Exec) evComposite(st *State, e *ast.CompositeLit, _ bool) Val {
 		return x.name("lit", Val{T: x.vc.mkSlice(srt, arr, x.vc.intLit(n), "false"), Sort: srt, GoT: t})
 	case *types.Array:
 		inf := x.vc.info(srt)
-		arr := fmt.Sprintf("((as const %s) %s)", srt, x.vc.zero(inf.Elem))
+		arr := x.vc.constArr(x.vc.intSort(), inf.Elem)
 		for i, el := range e.Elts {
 			v := x.evElt(st, el, u.Elem())
 			arr = fmt.Sprintf("(store %s %s %s)", arr, x.vc.intLit(int64(i)), v.T)
